@@ -261,6 +261,19 @@ def gen_cases(rng, tier):
             v = sum(a * b for a, b in zip(w, k)) + abs(rng.gauss())
             c3 = [[c[0][0], c[0][1], k[0]], [c[1][0], c[1][1], k[1]], [k[0], k[1], v]]
             lines = ['ell.pose2d ' + toks(ctr + [rng.uniform(-math.pi, math.pi)] + flat(c3) + [sigma])]
+        if rng.chance(0.4):
+            # the ellipse is a pure function of (position, covariance, sigma): the same call again with ONE argument changed and the
+            # others re-issued bit-identically (seeded change c11d: a thread_local memo keyed on the covariance only keeps the radii
+            # of the earlier sigma)
+            first = lines[0].split()
+            for _ in range(rng.int(1, 3)):
+                t = list(first)
+                m = rng.below(3)
+                if m == 0:
+                    t[-1] = toks([rng.choice([1.0, 2.0, 3.0, rng.uniform(1e-3, 10.0)])])
+                elif m == 1:
+                    t[1:3] = toks(rand_vec(rng, 2)).split()
+                lines.append(' '.join(t))
         cases.append({'name': 'ellipse-%d' % i, 'lines': lines, 'meta': {}})
     return cases
 
